@@ -1,34 +1,28 @@
 #!/bin/sh
 # usage: tools/baseline.sh <repo_dir> [cargo_target_dir]
-# Runs the pinned baseline suite (guard off) in <repo_dir> and compares with /root/.vp/BASELINE.json.
+# Runs the pinned baseline suite (guard off) in <repo_dir> and compares with /root/.vp/BASELINE.json:
+# every test that fails must be one of the baseline's always_fail tests, and at least n_stable must pass.
 d="$1"; t="${2:-$d/target}"
 cd "$d" || exit 2
-rm -f "$t/nextest/pb/junit.xml"
-INSTA_UPDATE=no CARGO_NET_OFFLINE=true CARGO_TARGET_DIR="$t" cargo nextest run --workspace --no-fail-fast --tool-config-file pb:/w/lib/nextest.toml --profile pb --test-threads 8 --offline >/tmp/baseline.$$.log 2>&1
-python3 - "$t/nextest/pb/junit.xml" <<'PY'
-import json,sys,xml.etree.ElementTree as ET
-base=set(json.load(open('/root/.vp/BASELINE.json'))['stable_pass'])
-try:
-    root=ET.parse(sys.argv[1]).getroot()
-except Exception as e:
-    print("BASELINE: no junit (build failed?)",e); sys.exit(1)
-passed=set()
-for ts in root.iter('testsuite'):
-    for tc in ts.iter('testcase'):
-        name=tc.get('classname','')+'::'+tc.get('name','')
-        ok=not any(c.tag in('failure','error') for c in tc)
-        if ok: passed.add(name)
-def norm(n):
-    return n.replace('rustic_core::integration::integration::','rustic_core::integration::integration::')
-miss=[b for b in base if b not in passed and b.replace('::','::') not in passed]
-if miss:
-    # try suffix matching (classname formats differ)
-    names=passed
-    miss=[b for b in miss if not any(p.endswith(b.split('::',1)[1]) for p in names)]
-print(f"BASELINE: {len(base)-len(miss)}/{len(base)} stable tests pass")
-for m in miss[:20]: print("  FAIL/MISSING", m)
-sys.exit(1 if miss else 0)
+log=/tmp/baseline.$$.log
+INSTA_UPDATE=no CARGO_NET_OFFLINE=true CARGO_TARGET_DIR="$t" cargo nextest run --workspace --no-fail-fast --tool-config-file pb:/w/lib/nextest.toml --profile pb --test-threads 8 --offline >$log 2>&1
+python3 - $log <<'PY'
+import json,re,sys
+b=json.load(open('/root/.vp/BASELINE.json'))
+always=set(b['always_fail']); n=b['n_stable']
+log=open(sys.argv[1]).read()
+fails=set()
+for m in re.finditer(r'^\s+(?:FAIL|TIMEOUT|SIGABRT|SIGSEGV|LEAK-FAIL)\s+\[[^\]]*\]\s+(?:\(\s*\d+/\d+\)\s+)?(\S+)\s+(\S+)', log, re.M):
+    fails.add(m.group(1).split('::')[0]+'::'+ (m.group(1).split('::',1)[1]+'::' if '::' in m.group(1) else '') + m.group(2))
+s=re.search(r'(\d+) tests run: (\d+) passed', log)
+if not s:
+    print("BASELINE: no summary (build failed?)"); print(log[-1500:]); sys.exit(1)
+run,passed=int(s.group(1)),int(s.group(2))
+unexpected=sorted(f for f in fails if f not in always)
+print(f"BASELINE: {passed} passed of {run} run (need >= {n}); unexpected failures: {len(unexpected)}")
+for u in unexpected[:20]: print("  FAIL", u)
+sys.exit(0 if (passed>=n and not unexpected) else 1)
 PY
 rc=$?
-tail -3 /tmp/baseline.$$.log; rm -f /tmp/baseline.$$.log
+rm -f $log
 exit $rc
